@@ -339,7 +339,7 @@ func propC19(t *rapid.T, is64 bool) {
 			copyAfter = copyAfter || (sawNeg && sawWiden)
 		},
 		"MarshalRoundTrip": func(t *rapid.T) {
-			if is64 && hasNeg(m) {
+			if is64 && hasNeg(m) && known64MarshalReproduces() {
 				// KNOWN FINDING (KNOWN_FINDINGS.json, bsi64-marshal-sign-plane): excluded by construction,
 				// reported by TestRegressC19 while it still reproduces
 				inst.Count("C19", "avoided:known-finding bsi64-marshal-sign-plane")
